@@ -291,3 +291,14 @@ def run(ctx, report: Report) -> None:
     from .e2ematch import case_rules_table
     case_rules_table(ctx, r5)
 
+    # ---- R6 (the whole pipeline by interpretation, bounded) --------------------------------------------------------------
+    r6 = report.rule('C11-R6', 'the document type is decided from the document, whatever element the call starts from (bounded)', floor=10)
+    from .e2ematch import scope_independence_table
+    scope_independence_table(ctx, r6)
+
+    # the `type` attribute is the case-insensitive one however its name is spelled in the selector
+    from .e2etab import equivalent_spellings_table
+    equivalent_spellings_table(ctx, r5, only=('attribute name type', 'namespaced attribute name', 'case of the i flag', 'case of the s flag'))
+
+
+
